@@ -17,7 +17,7 @@ public:
 
     template<typename T, typename ...Args>
     typename std::enable_if_t<!Runnable::isRunnable<T>::value, void> start(T ptr, Args&&... args) {
-        m_thread = std::thread([&]() {
+        m_thread = std::thread([this, ptr, &args...]() mutable {
             ptr(std::forward<Args>(args)...);
             m_isFinished = true;
         });
